@@ -865,6 +865,124 @@ class VSetOf(Ext):
         return 0
 
 
+class AT(Ext):
+    """a CasADi value in an array literal: a scalar symbol / expression, or a concatenation (vertcat: the arguments stacked as rows
+    of a column; horzcat: the arguments side by side as columns)"""
+    type_names = ("MX",)
+
+    def __init__(self, kind, args=(), label=None):
+        self.kind, self.args, self.label = kind, tuple(args), label
+
+    def shape(self):
+        if self.kind == "scalar":
+            return (1, 1)
+        shapes = [a.shape() if isinstance(a, AT) else (1, 1) for a in self.args]
+        if self.kind == "vcat":
+            return (sum(r for r, _ in shapes), shapes[0][1] if shapes else 0)
+        return (shapes[0][0] if shapes else 0, sum(c for _, c in shapes))
+
+    def entry(self, r, c):
+        if self.kind == "scalar":
+            return self if (r, c) == (0, 0) else None
+        for a in self.args:
+            ar, ac = a.shape() if isinstance(a, AT) else (1, 1)
+            if self.kind == "vcat":
+                if r < ar:
+                    return a.entry(r, c) if isinstance(a, AT) else (a if c == 0 else None)
+                r -= ar
+            else:
+                if c < ac:
+                    return a.entry(r, c) if isinstance(a, AT) else (a if r == 0 else None)
+                c -= ac
+        return None
+
+    def sym_isinstance(self, eng, cls):
+        return cls.name == "MX"
+
+    def sym_getattr(self, eng, name):
+        if name == "is_scalar":
+            return stub(lambda eng, *a: self.shape() == (1, 1))
+        if name == "shape":
+            return self.shape()
+        if name in ("size1", "size2"):
+            return stub(lambda eng: self.shape()[int(name[-1]) - 1])
+        if name in ("is_constant", "is_symbolic"):
+            return stub(lambda eng: False)
+        if name == "T":
+            raise Unsupported("transpose of an array-literal term")
+        raise Unsupported("MX.%s on an array-literal term" % name)
+
+    def sym_eq(self, eng, other):
+        return self is other
+
+
+def literal_entry(v, i, j):
+    """entry [i][j] of what exitArray stored for a two-level literal: a nested list is taken row by row, a CasADi matrix by (row, column)"""
+    if isinstance(v, VList):
+        row = v.items[i] if i < len(v.items) else None
+        if isinstance(row, VList):
+            return row.items[j] if j < len(row.items) else None
+        if isinstance(row, AT):
+            return row.entry(j, 0) if row.shape()[1] == 1 else row.entry(0, j)
+        return None
+    if isinstance(v, AT):
+        return v.entry(i, j)
+    return None
+
+
+def h_array_literal(eng):
+    """Generator.exitArray on a two-level literal {{e11, e12, ..}, {e21, ..}} (an attribute such as max = {{p, 2*p}, {3*p, 4}}): the inner
+    literals are the ROWS of the Modelica array.  Whatever container the generator builds -- nested lists, or a CasADi matrix when an
+    entry is symbolic -- its entry (i, j) is the j-th entry of the i-th inner literal."""
+    from .gen_common import new_generator
+    from .ast_common import base_modules
+    base_modules(eng)
+    rows, cols = [(2, 2), (2, 3), (3, 2)][eng.choice(3)]
+    pattern = ["all numbers", "one symbolic entry", "all symbolic"][eng.choice(3)]
+    eng.input("literal", {"rows": rows, "columns": cols, "entries": pattern})
+    mx = VClass("MX")
+    mx.constructor = lambda eng, c, a, k: a[0] if isinstance(a[0], AT) else AT("scalar", (), "const:%r" % (a[0],))
+    cas = ModuleStub("casadi", {"MX": mx, "DM": VClass("DM"), "vertcat": stub(lambda eng, *a: AT("vcat", a)), "horzcat": stub(lambda eng, *a: AT("hcat", a)),
+                                "vcat": stub(lambda eng, xs: AT("vcat", tuple(eng.iterate(xs)))), "hcat": stub(lambda eng, xs: AT("hcat", tuple(eng.iterate(xs))))})
+    eng.ext_modules["casadi"] = cas
+    eng.ext_modules["numpy"] = np_module()
+    eng.ext_modules["pymoca.tree"] = ModuleStub("pymoca.tree", {"TreeListener": VClass("TreeListener"), "TreeWalker": VClass("TreeWalker"), "flatten": None})
+    try:
+        gm = eng.load_module(GEN)
+        src = VDict()
+        g = new_generator(eng, gm, {"src": src, "for_loops": VList([])})
+        E, leaves = [], []
+        for i_ in range(rows):
+            E.append([])
+            leaves.append([])
+            for j_ in range(cols):
+                symbolic = pattern == "all symbolic" or (pattern == "one symbolic entry" and (i_, j_) == (0, 1))
+                val = AT("scalar", (), "e%d%d" % (i_ + 1, j_ + 1)) if symbolic else float(10 * (i_ + 1) + (j_ + 1))
+                leaf = VObj(VClass("Primary"), {"value": val})
+                ops.setitem(eng, src, leaf, val)
+                E[-1].append(val)
+                leaves[-1].append(leaf)
+        f = eng.find_function(GEN, "Generator.exitArray")
+        inner = [VObj(VClass("Array"), {"values": VList(leaves[i_])}) for i_ in range(rows)]
+        for t in inner:
+            eng.call(VBound(f, g), [t], {})
+        outer = VObj(VClass("Array"), {"values": VList(inner)})
+        eng.call(VBound(f, g), [outer], {})
+        res = ops.getitem(eng, src, outer)
+    finally:
+        for k_ in ("pymoca.tree", "casadi", "numpy"):
+            eng.ext_modules.pop(k_, None)
+    eng.cover("array.done")
+    bad = []
+    for i_ in range(rows):
+        for j_ in range(cols):
+            got = literal_entry(res, i_, j_)
+            same = (got is E[i_][j_]) or (isinstance(E[i_][j_], float) and (got == E[i_][j_] or (isinstance(got, AT) and got.label == "const:%r" % (E[i_][j_],))))
+            if not same:
+                bad.append(((i_ + 1, j_ + 1), getattr(got, "label", got)))
+    eng.prove("array.entry_i_j_of_a_nested_literal_is_entry_j_of_its_i_th_inner_literal", z3.BoolVal(not bad), wrong=bad[:4])
+
+
 def h_expanded_elements(eng):
     """Model._expand_vectors (reached with expand_vectors=True before the metadata function is built): every attribute
     of every scalar element is the attribute of the array at that element's own index, whatever container holds it
@@ -874,10 +992,10 @@ def h_expanded_elements(eng):
     C18.h_expand(eng, cases=[c for c in C18.CASES if not c[3]])
 
 
-HARNESSES = [("Model._expand_vectors: attributes of the scalar elements", h_expanded_elements), ("model.Variable.__init__", h_defaults), ("Generator._ast_symbols_to_variables/attributes", h_attribute_copy),
+HARNESSES = [("Generator.exitArray: nested array literals", h_array_literal), ("Model._expand_vectors: attributes of the scalar elements", h_expanded_elements), ("model.Variable.__init__", h_defaults), ("Generator._ast_symbols_to_variables/attributes", h_attribute_copy),
              ("Model.variable_metadata_function", h_metadata_function), ("Model._substitute_metadata", h_substitute_metadata),
              ("Model.variable_metadata_function: read, change, read", h_metadata_reread)]
-EXPECTED_COVER = {"defaults.done", "copy.done", "meta.done", "submeta.done", "reread.done", "expand.done"}
+EXPECTED_COVER = {"defaults.done", "copy.done", "meta.done", "submeta.done", "reread.done", "expand.done", "array.done"}
 BOUNDED = True
 LEVEL = "proof"
 TRUSTED = ["pyvc VC generator", "z3 5.1.0",
